@@ -17,6 +17,7 @@ import GemseoVerif.Lemmas.C09Par
 import GemseoVerif.Lemmas.C09Mat
 import GemseoVerif.Lemmas.C09Sel
 import GemseoVerif.Lemmas.C09Eval
+import GemseoVerif.Lemmas.C09Size
 
 namespace GV.C09
 
@@ -182,6 +183,94 @@ theorem zero_block_shape (m n : Nat) :
   have := List.eq_of_mem_replicate hr
   subst this
   exact ⟨by simp, fun e he => List.eq_of_mem_replicate he⟩
+
+/-! ### Zero blocks along a history of input points whose vectors change length
+
+Grammars do not fix sizes: the same process object may be linearized at a point made of vectors of one
+length, then at a point made of vectors of another length.  `_init_jacobian` reads the sizes of the requested
+names in the current data at every call (section Sizes of the model: `namesToSizes`, `SizedReq.fill`,
+`sizedAnswers`); the model — like the code — keeps no size between two requests. -/
+
+section
+variable {V D : Type} [DecidableEq V] [BlockOps (fun (_ _ : V) => Mat)]
+
+/-- **Zero blocks have the shape of the CURRENT point, whatever the history.**  For every history of
+    requests on one chain (any data, any lengths, any requested names, any dictionaries of the disciplines at
+    each request), the answer to request `k` gives every requested pair `(o, x)` for which the accumulation
+    produced no block (independent pair) the zero block with `len (data_k o)` rows of `len (data_k x)` zeros:
+    the lengths of the values of `o` and `x` in the data of request `k`, not of an earlier request. -/
+theorem zero_blocks_follow_current_sizes (len : D → Nat) (vars : List V)
+    (history : List (SizedReq V D × List (Disc (fun (_ _ : V) => Mat))))
+    (k : Nat) (r : SizedReq V D) (ds : List (Disc (fun (_ _ : V) => Mat)))
+    (hk : history[k]? = some (r, ds)) (o x : V) (ho : o ∈ r.os) (hx : x ∈ r.xs)
+    (h : ∀ row, chainRow vars ds o = some row → row.get x = none) :
+    ∃ a, (sizedAnswers len vars history)[k]? = some a ∧
+      a o x = Mat.zeros (len (r.data o)) (len (r.data x)) ∧
+      (a o x).length = len (r.data o) ∧
+      ∀ row ∈ a o x, row.length = len (r.data x) ∧ ∀ e ∈ row, e = 0 := by
+  refine ⟨fun o x => chainJac vars (r.fill len) ds o x, ?_, ?_⟩
+  · simp [sizedAnswers, List.getElem?_map, hk]
+  · have hb : chainJac vars (r.fill len) ds o x = Mat.zeros (len (r.data o)) (len (r.data x)) := by
+      rw [← SizedReq.fill_eq len r o x ho hx]
+      unfold chainJac finishRow
+      cases hrow : chainRow vars ds o with
+      | none => rfl
+      | some row => simp [h row hrow]
+    refine ⟨hb, ?_⟩
+    beta_reduce
+    rw [hb]
+    exact Mat.zeros_shape _ _
+
+/-- The same zero blocks are used by the parallel and additive chains (`parJac`, `addJac` take the same
+    `fill`): whatever the request, the fill of a requested pair has the sizes of the data of the request. -/
+theorem request_fill_has_current_shape (len : D → Nat) (r : SizedReq V D) (o x : V)
+    (ho : o ∈ r.os) (hx : x ∈ r.xs) :
+    (r.fill len o x).length = len (r.data o) ∧
+      ∀ row ∈ r.fill len o x, row.length = len (r.data x) ∧ ∀ e ∈ row, e = 0 := by
+  rw [SizedReq.fill_eq len r o x ho hx]
+  exact Mat.zeros_shape _ _
+
+/-- Parallel chain: an independent requested pair gets the zero block of the current sizes. -/
+theorem parallel_zero_blocks_follow_current_sizes (len : D → Nat) (r : SizedReq V D)
+    (ds : List (Disc (fun (_ _ : V) => Mat))) (o x : V) (ho : o ∈ r.os) (hx : x ∈ r.xs)
+    (h : ∀ row, parRow ds o = some row → row.get x = none) :
+    parJac (r.fill len) ds o x = Mat.zeros (len (r.data o)) (len (r.data x)) := by
+  rw [← SizedReq.fill_eq len r o x ho hx]
+  unfold parJac finishRow
+  cases hrow : parRow ds o with
+  | none => rfl
+  | some row => simp [h row hrow]
+
+end
+
+/-- Non-vacuity: the chain `[H : u ↦ z]` asked for `dz/dx` (independent pair) at a point where `x, z` have
+    2 components, then at a point where they have 4 and 3: the second answer is the `3 × 4` zero block. -/
+example :
+    let H : Disc (fun (_ _ : String) => Mat) :=
+      ⟨["u"], ["z"], ⟨["z"], fun _ => ["u"], fun _ _ => [[1]]⟩⟩
+    let r1 : SizedReq String (List Rat) := ⟨fun _ => [1, 2], ["x", "u"], ["z"]⟩
+    let r2 : SizedReq String (List Rat) :=
+      ⟨fun v => if v = "x" then [1, 2, 3, 4] else [5, 6, 7], ["x", "u"], ["z"]⟩
+    ∃ a, (sizedAnswers List.length ["u", "x", "z"] [(r1, [H]), (r2, [H])])[1]? = some a ∧
+      a "z" "x" = Mat.zeros 3 4 := by
+  intro H r1 r2
+  obtain ⟨a, ha, hz, _⟩ := zero_blocks_follow_current_sizes (V := String) List.length ["u", "x", "z"]
+    [(r1, [H]), (r2, [H])] 1 r2 [H] rfl "z" "x" (by simp [r2]) (by simp [r2])
+    (by
+      intro row hrow
+      simp [chainRow, stepOpt, H] at hrow
+      subst hrow
+      simp [DJac.row])
+  exact ⟨a, ha, by simpa [r2] using hz⟩
+
+/-- Witness of the seeded class "sizes memoized per variable" (NOT the code): after a first request at a
+    point where `x` has 2 components the memo answers 2 at a point where `x` has 4 components, the code
+    (`namesToSizes`) answers 4. -/
+theorem memoized_sizes_keep_the_first_shape :
+    let memo := memoSizes (V := Nat) List.length [] (fun _ => [1, 2]) [0]
+    sizeIn (memoSizes List.length memo (fun _ => [1, 2, 3, 4]) [0]) 0 = 2 ∧
+      sizeIn (namesToSizes (V := Nat) List.length (fun _ => [1, 2, 3, 4]) [0]) 0 = 4 := by
+  decide
 
 /-! ### Pruning: the partials selected by the graph traversal suffice -/
 
